@@ -238,6 +238,7 @@ func c01() {
 		run.Require("programs", 50)
 		run.Require("decided_by_group_ge2", 1)
 	}
+	run.RunSecondaryBuild()
 	run.Finish(run.Counter("events"), int64(len(distinctProgs)),
 		"name-only policies (catalogue + PRNG: 1..8 and 9..150 groups, sizes incl. 0/1/253..258/half/whole table, table splits) compiled by the real compiler; every class of the nr partition induced by program constants and policy numbers x 2 adversarial argument fills, run through E1 (raw+typed) and compared with E2; then the same Policy value is edited in place (name replaced, action changed), compiled again and re-judged; distinct = distinct (program length, groups, return set) shapes")
 }
